@@ -1,4 +1,4 @@
-import UralModel.Model.Normalize
+import UralModel.Model.C03
 import UralModel.Lemmas.Canonicalize
 import UralModel.Lemmas.Quote
 import UralModel.Lemmas.QuoteIdem
@@ -316,20 +316,6 @@ theorem fixedQuery_eq (o : Opts) (p : Parsed) : fixedQuery o p = fixQ o p.query 
     · simp [h, h2]
   · simp [h]
 
-/-- **excluded region 1** (genuine defect, `notes/fixes/c03-query-mistakes-after-unescaping.diff`):
-`fix_common_query_mistakes` runs on the still-escaped query, so it commutes with
-canonicalisation only when no `&amp;` is hidden behind an escape (`&a%6Dp;`) -/
-def MistakeStable (q : Str) : Prop :=
-  fixCommonQueryMistakes (canonQuery false q) = canonQuery false (fixCommonQueryMistakes q)
-
-instance (q : Str) : Decidable (MistakeStable q) := by unfold MistakeStable; infer_instance
-
-/-- **excluded region 2** (genuine defect, `notes/fixes/c03-domain-filter-on-decoded-hostname.diff`):
-the per-domain query filter is chosen from the hostname as the parser returned it, not from the
-decoded one -/
-def DomainStable (puny : Str → Str) (hostname : Option Str) : Prop :=
-  domainFilter (hostname.map (canonHost puny)) = domainFilter hostname
-
 theorem filterQuery_congr (o : Opts) (h h' : Option Str) (q q' : Str)
     (hd : domainFilter h' = domainFilter h) (he : q'.isEmpty = q.isEmpty)
     (hi : unquoteQsl (safeQslIter q') = unquoteQsl (safeQslIter q)) :
@@ -428,22 +414,6 @@ theorem normPort_canon (s0 : Str) (port : Option Nat) :
     · simp [h]
 
 /-! ## the re-parse of the printed canonical URL -/
-
-/-- what the proof needs of "the parser gives the canonical components back": path, query and
-fragment as printed, the same port, the same host (an absent and an empty host are not
-distinguished).  Scheme and userinfo are not needed. -/
-structure Reparses (c : Canonicalize.Comps) (p' : Parsed) : Prop where
-  path : p'.path = c.path
-  query : p'.query = c.query
-  fragment : p'.fragment = c.fragment.getD []
-  host : p'.hostname.getD [] = c.host.getD []
-  port : p'.port = c.port
-
-/-- the idealised re-parse -/
-def reparse (c : Canonicalize.Comps) : Parsed :=
-  { scheme := c.scheme, netloc := unsplitNetloc c.user c.pass c.host c.port, path := c.path,
-    query := c.query, fragment := c.fragment.getD [], username := c.user, password := c.pass,
-    hostname := c.host, port := c.port }
 
 theorem reparses_reparse (c : Canonicalize.Comps) : Reparses c (reparse c) :=
   ⟨rfl, rfl, rfl, rfl, rfl⟩
